@@ -105,6 +105,26 @@ func clauseServes(eng *Engine, o *Obligation, fr *funcResult, prop string) bool 
 			}
 		}
 	}
+	if o.Kind == "assert" {
+		// Func/before:Callee[#n]/assertK
+		if i := strings.Index(o.Clause, "/before:"); i >= 0 {
+			rest := o.Clause[i+8:]
+			if j := strings.LastIndex(rest, "/assert"); j >= 0 {
+				n, _ := strconv.Atoi(rest[j+7:])
+				bs := ct.Befores[rest[:j]]
+				if n >= 1 && n <= len(bs) {
+					if tags := bs[n-1].Tags; len(tags) > 0 {
+						for _, t := range tags {
+							if t == prop {
+								return true
+							}
+						}
+						return false
+					}
+				}
+			}
+		}
+	}
 	if o.Kind == "postcondition" {
 		if i := strings.LastIndex(o.Clause, "/exit"); i >= 0 {
 			n, _ := strconv.Atoi(o.Clause[i+5:])
@@ -140,6 +160,22 @@ func functionsServing(eng *Engine, prop string) []string {
 			for _, t := range en.Tags {
 				if t == prop {
 					ok = true
+				}
+			}
+		}
+		for _, en := range ct.Exits {
+			for _, t := range en.Tags {
+				if t == prop {
+					ok = true
+				}
+			}
+		}
+		for _, bs := range ct.Befores {
+			for _, en := range bs {
+				for _, t := range en.Tags {
+					if t == prop {
+						ok = true
+					}
 				}
 			}
 		}
